@@ -17,6 +17,8 @@ import (
 	"strings"
 	"syscall"
 	"time"
+
+	"golang.org/x/sys/unix"
 )
 
 // ---- PRNG (splitmix64) ------------------------------------------------------
@@ -456,7 +458,13 @@ func vfFixTimes(src, dst string, when time.Time) {
 	for i := len(paths) - 1; i >= 0; i-- {
 		p := paths[i]
 		fi, err := os.Lstat(p)
-		if err != nil || fi.Mode()&os.ModeSymlink != 0 {
+		if err != nil {
+			continue
+		}
+		if fi.Mode()&os.ModeSymlink != 0 {
+			// a symlink has its own mtime (reported by LSTAT): pin it as well
+			ts := []unix.Timespec{unix.NsecToTimespec(when.UnixNano()), unix.NsecToTimespec(when.UnixNano())}
+			unix.UtimesNanoAt(unix.AT_FDCWD, p, ts, unix.AT_SYMLINK_NOFOLLOW)
 			continue
 		}
 		if src != "" {
@@ -468,3 +476,7 @@ func vfFixTimes(src, dst string, when time.Time) {
 		os.Chtimes(p, when, when)
 	}
 }
+
+// syscallUmask pins the process umask to 022 (the sandbox default), so that modes of
+// created files are comparable between a served tree and an os-driven twin.
+func syscallUmask() { syscall.Umask(0o022) }
